@@ -477,3 +477,40 @@ func init() {
 		Bounds: "lengths as listed, all byte values", Outside: "the goroutine structure of RunUDPAssociateLoop"})
 	reg("C10", registry["C18"][len(registry["C18"])-1])
 }
+
+func init() {
+	sess := map[string]string{
+		"github.com/google/btree.NewG":                           "vTreeNew",
+		"(*github.com/google/btree.BTreeG[T]).Len":               "vTreeLen",
+		"(*github.com/google/btree.BTreeG[T]).ReplaceOrInsert":   "vTreeReplaceOrInsert",
+		"(*github.com/google/btree.BTreeG[T]).Min":               "vTreeMin",
+		"(*github.com/google/btree.BTreeG[T]).Max":               "vTreeMax",
+		"(*github.com/google/btree.BTreeG[T]).DeleteMin":         "vTreeDeleteMin",
+		"(*github.com/google/btree.BTreeG[T]).Clear":             "vTreeClear",
+		"(*github.com/google/btree.BTreeG[T]).Ascend":            "vTreeAscend",
+		"(*github.com/enfein/mieru/v3/pkg/protocol.Session).output": "vStubOutput",
+		"github.com/enfein/mieru/v3/pkg/metrics.RegisterMetric":  "vStubRegisterMetric",
+	}
+	sessLB := map[string]int{"closeWithError": 1001}
+	sessNote := "B-tree replaced by a sorted-set model of capacity 4 (DESIGN 3.5); Session.output and metric registration stubbed; mutexes no-ops"
+	ds := HarnessDef{ID: "H13.1s", Spec: HarnessSpec{Name: "vH_C13_inputData_session", Pkg: "pkg/protocol", LoopBound: 8, LoopBounds: sessLB, TimeoutS: 240, Par: 6, Redirects: sess},
+		What:   "the UDP receive step when the incoming segment is a SESSION segment with an arbitrary sequence number (a duplicate open-session response at an established client, a duplicate open-session request at a server): it shares the sequence space and moves the cumulative ack only if it is the expected one - a duplicate never bumps nextRecv",
+		Bounds: "as H13.1", Outside: sessNote}
+	reg("C13", ds)
+	reg("C02", ds)
+	for _, d := range registry["C01"] {
+		if d.ID == "H1.3" {
+			d2 := d
+			d2.ID = "H9.9"
+			d2.What = "every session segment may carry payload (docs/protocol.md): an open-session response / request at the head of the receive queue hands its payload to the application like a data segment (= C01 H1.3)"
+			reg("C09", d2)
+		}
+	}
+	reg("C16", HarnessDef{ID: "H16.3", Spec: HarnessSpec{Name: "vH_C16_nonce_pattern", Pkg: "pkg/cipher", LoopBound: 40, TimeoutS: 240, Par: 4,
+		Redirects: map[string]string{"github.com/enfein/mieru/v3/pkg/common.ToPrintableChar": "vStubToPrintable", "github.com/enfein/mieru/v3/pkg/common.ToCommon64Set": "vStubToCommon64"}},
+		What:   "real aeadBlockCipher.SetNoncePattern / Clone / newNonceTo / nonceRewriteLen for every nonce type, length range and applyToAllUDPPacket setting, on the cipher and on its Clone (both TCP sending ciphers are clones): the configured alphabet is applied once from byte 0 over a prefix whose length lies in [minLen, maxLen]; a fixed-type nonce starts with one of the configured prefixes - on a clone too; a stateless cipher re-applies the pattern to later packets iff applyToAllUDPPacket",
+		Bounds: "minLen <= maxLen <= 24, one or two 4-byte fixed prefixes", Outside: "the alphabet rewriters ToPrintableChar / ToCommon64Set are replaced by recorders (which range, which alphabet); proto.Clone modelled as a deep copy"})
+	reg("C20", HarnessDef{ID: "H20.1", Spec: HarnessSpec{Name: "vH_C20_store_hashes_passwords", Pkg: "pkg/appctl/appctlcommon", LoopBound: 40, TimeoutS: 120, Par: 2},
+		What:   "real HashUserPasswords(users, false) - what StoreServerConfig runs right before marshalling - on users with every mix of name / password / hashedPassword fields set or unset (incl. both): afterwards NO user carries a non-empty plaintext password, and a user that had one has a hashed password; keepPlaintext leaves the client's password in place",
+		Bounds: "2 users, strings <= 2 bytes", Outside: "SHA-256 uninterpreted; the marshalling and file write themselves (reflection / I/O)"})
+}
